@@ -197,7 +197,14 @@ func (hash *SexpHash) HashGet(env *Zlisp, key Sexp) (res Sexp, err error) {
 		}
 		//P("HashGet, sym = '%v'. isDot=%v", sym.SexpString(nil), sym.isDot)
 		if sym.isDot {
-			return hash.DotPathHashGet(env, sym)
+			// the printers look keys up without an interpreter at hand;
+			// a dot path needs one to intern its components.
+			if env == nil {
+				env = hash.Env
+			}
+			if env != nil {
+				return hash.DotPathHashGet(env, sym)
+			}
 		}
 
 	case *SexpArray:
